@@ -2,7 +2,7 @@
 import importlib.util
 import os
 
-HOOK_COMMITS = ["c60118c", "ee2f7d8"]
+HOOK_COMMITS = ["c60118c", "ee2f7d8", "159cf71"]
 
 # property id -> reason, for properties that are deliberately not claimed
 NOT_APPLICABLE = {}
